@@ -487,34 +487,140 @@ def record_factory(factory, call, candidates):
     return st, r
 
 
-def factory_case(ck, case, plats, tmpfile, lines, pending, matcher):
-    """case = dict(async, platform, variant(MISSING|..), args{name:value}, hidden)"""
+def _case_parts(case, plats):
     from scrapli import AsyncScrapli, Scrapli
-    from scrapli.exceptions import ScrapliException
     is_async = case["async"]
     factory = AsyncScrapli if is_async else Scrapli
     platform, args = case["platform"], dict(case["args"])
     call = {"platform": platform, **args}
     if case["variant"] is not MISSING:
         call["variant"] = case["variant"]
-    variant = call.get("variant")
-    reg = Registry()
-    desc = describe(case)
-    transport = args.get("transport")
-    core_map = factory.CORE_PLATFORM_MAP
     is_core = isinstance(platform, str) and platform in CORE
     plat = plats.get(platform) if isinstance(platform, str) and not case["hidden"] else None
     if plat is None and isinstance(platform, str) and not case["hidden"] and platform in REAL_COMMUNITY:
         plat = sys.modules[module_name(platform)].SCRAPLI_PLATFORM
+    return is_async, factory, platform, args, call, is_core, plat
+
+
+def factory_oracle(case, plats):
+    """the property evaluated on the real code for one factory call (never consults the model).
+    returns dict(viols=[(what, details)], tags, nontrivial, advisory)"""
+    from scrapli.exceptions import ScrapliException
+    is_async, factory, platform, args, call, is_core, plat = _case_parts(case, plats)
+    variant, transport = call.get("variant"), args.get("transport")
+    out = {"viols": [], "advisory": None}
+    with Community(plats, hide_package=case["hidden"]):
+        fst, fres = build(factory, call)
+        supplied = {k: v for k, v in args.items() if v is not None or k not in FACTORY_PARAMS}
+        unknown = (not isinstance(platform, str)) or (not is_core and plat is None)
+        mixup = isinstance(transport, str) and transport in (SYNC_TRANSPORTS if is_async else ASYNC_TRANSPORTS)
+        out["nontrivial"] = bool(supplied.keys() - {"host"}) or unknown or mixup
+        tags = [f"stack={'async' if is_async else 'sync'}", f"nargs={min(len(supplied), 12)}",
+                "platform=" + ("core" if is_core else "unknown" if unknown else "community"),
+                "outcome=" + ("ok" if fst == "ok" else type(fres).__name__)]
+        if any(is_falsy_non_none(v) for k, v in supplied.items() if k in FACTORY_PARAMS):
+            tags.append("has-falsy")
+        if any(v is None for v in args.values()):
+            tags.append("has-None")
+        if variant:
+            tags.append("variant")
+        if mixup:
+            tags.append("mixup")
+        out["tags"] = tuple(tags)
+
+        def bad(what, **more):
+            out["viols"].append((what, more))
+
+        if unknown or mixup:
+            if not (fst == "exc" and isinstance(fres, ScrapliException)):
+                bad("unknown platform / transport mix-up was not rejected with a scrapli exception",
+                    got=exc_sig(fres) if fst == "exc" else "constructed " + type(fres).__name__)
+            return out
+        # direct construction of the same thing
+        try:
+            if is_core:
+                dcls, ckw = ORACLE_CORE[(platform, is_async)], {}
+            else:
+                dcls, ckw = oracle_community(plat, variant, is_async, ORACLE_DRIVER_MAP[is_async])
+        except KeyError:
+            # outside the documented structure (unknown variant, no "variants" key)
+            out["advisory"] = ("unknown_variant", None if (fst == "exc" and isinstance(fres, ScrapliException)) else
+                               (type(fres).__name__ if fst == "exc" else "constructed"))
+            return out
+        dst, dres = build(dcls, {**ckw, **supplied})
+        if fst != dst:
+            bad("factory and direct construction differ: one raised, the other did not",
+                factory=exc_sig(fres) if fst == "exc" else "ok", direct=exc_sig(dres) if dst == "exc" else "ok")
+            return out
+        if fst == "exc":
+            if exc_sig(fres) != exc_sig(dres):
+                bad("factory and direct construction raise different exceptions", factory=exc_sig(fres), direct=exc_sig(dres))
+            return out
+        if type(fres) is not dcls:
+            bad("factory built a different class", factory=type(fres).__name__, direct=dcls.__name__)
+            return out
+        fs, ds = conn_snap(fres), conn_snap(dres)
+        diff = [k for k in fs if fs[k] != ds[k]]
+        if diff:
+            bad("factory-built and directly built drivers differ in " + ",".join(diff),
+                factory={k: repr(fs[k])[:200] for k in diff}, direct={k: repr(ds[k])[:200] for k in diff})
+        # every supplied argument takes effect
+        tn = fres.transport_name
+        for k, v in supplied.items():
+            e = effect_of(k, v, fres, tn)
+            if e is None or k == "host":
+                continue
+            got, want = e
+            by_identity = callable(want) or isinstance(want, io.BytesIO) or (isinstance(want, dict) and want and k == "privilege_levels")
+            if not (got is want if by_identity else (type(got) is type(want) and got == want)):
+                bad(f"supplied argument {k} did not take effect", argument=k, got=repr(got)[:200], want=repr(want)[:200])
+        # community defaults apply where the user said nothing
+        for k, v in ckw.items():
+            if k in supplied or k == "privilege_levels" or v is None:
+                continue
+            e = effect_of(k, v, fres, tn)
+            if e is not None:
+                got, want = e
+                if not (got is want or (type(got) is type(want) and got == want)):
+                    bad(f"community default {k} did not take effect", argument=k, got=repr(got)[:200], want=repr(want)[:200])
+    return out
+
+
+def shrink_factory(case, what, plats, budget=60):
+    """greedy: drop arguments (then the variant) while the same violation persists"""
+    cur = {**case, "args": dict(case["args"])}
+    for k in list(cur["args"]):
+        if budget <= 0:
+            break
+        if k == "host":
+            continue
+        trial = {**cur, "args": {x: y for x, y in cur["args"].items() if x != k}}
+        budget -= 1
+        try:
+            if any(w == what for w, _ in factory_oracle(trial, plats)["viols"]):
+                cur = trial
+        except Exception:
+            pass
+    if cur["variant"] is not MISSING:
+        trial = {**cur, "variant": MISSING}
+        try:
+            if any(w == what for w, _ in factory_oracle(trial, plats)["viols"]):
+                cur = trial
+        except Exception:
+            pass
+    return cur
+
+
+def factory_case(ck, case, plats, tmpfile, lines, pending, matcher):
+    """case = dict(async, platform, variant(MISSING|..), args{name:value}, hidden)"""
+    is_async, factory, platform, args, call, is_core, plat = _case_parts(case, plats)
+    reg = Registry()
+    desc = describe(case)
     with Community(plats, hide_package=case["hidden"]):
         # ---- the model's request + the recorded real run (correspondence on: class, kwargs | exception class)
         custom = []
-        for p in plats.values():
+        for p in list(plats.values()) + ([plat] if plat is not None and all(plat is not q for q in plats.values()) else []):
             for dt in [p["driver_type"]] + [v.get("driver_type") for v in p.get("variants", {}).values()]:
-                if isinstance(dt, dict):
-                    custom += [dt["sync"], dt["async"]]
-        if plat is not None and plat not in plats.values():
-            for dt in [plat["driver_type"]] + [v.get("driver_type") for v in plat.get("variants", {}).values()]:
                 if isinstance(dt, dict):
                     custom += [dt["sync"], dt["async"]]
         from scrapli.driver import AsyncGenericDriver, AsyncNetworkDriver, GenericDriver, NetworkDriver
@@ -527,92 +633,20 @@ def factory_case(ck, case, plats, tmpfile, lines, pending, matcher):
         env = env_for(platform, plats, case["hidden"], reg) if not is_core else ("0" if case["hidden"] else "1")
         lines.append(f"fac {1 if is_async else 0} {enc_kw(call, reg)} {env}")
         pending.append(("fac", desc, reg, rst, rres, reg_names, {k for k, v in call.items() if v is not None}))
-        # ---- the real factory
-        fst, fres = build(factory, call)
-        # ---- the oracle
-        supplied = {k: v for k, v in args.items() if v is not None or k not in FACTORY_PARAMS}
-        unknown = (not isinstance(platform, str)) or (not is_core and plat is None)
-        eff_transport = transport
-        mixup = False
-        if isinstance(transport, str):
-            mixup = transport in (SYNC_TRANSPORTS if is_async else ASYNC_TRANSPORTS)
-        nontrivial = bool(supplied.keys() - {"host"}) or unknown or mixup
-        tags = [f"stack={'async' if is_async else 'sync'}", f"nargs={min(len(supplied), 12)}",
-                "platform=" + ("core" if is_core else "unknown" if unknown else "community"),
-                "outcome=" + ("ok" if fst == "ok" else type(fres).__name__)]
-        if any(is_falsy_non_none(v) for k, v in supplied.items() if k in FACTORY_PARAMS):
-            tags.append("has-falsy")
-        if any(v is None for v in args.values()):
-            tags.append("has-None")
-        if variant:
-            tags.append("variant")
-        if mixup:
-            tags.append("mixup")
-        ck.case(("fac", desc), nontrivial=nontrivial, sample=desc, tags=tuple(tags))
-
-        def bad(what, **more):
-            ck.violation({"kind": "factory", **desc, **more}, what, matcher)
-
-        if unknown or mixup:
-            if not (fst == "exc" and isinstance(fres, ScrapliException)):
-                bad("unknown platform / transport mix-up was not rejected with a scrapli exception",
-                    got=exc_sig(fres) if fst == "exc" else "constructed " + type(fres).__name__)
-            return
-        # direct construction of the same thing
-        try:
-            if is_core:
-                dcls, ckw = ORACLE_CORE[(platform, is_async)], {}
-            else:
-                dcls, ckw = oracle_community(plat, variant, is_async, ORACLE_DRIVER_MAP[is_async])
-        except KeyError as e:
-            # outside the documented structure (unknown variant, platform without the four hooks)
-            ck.extra["advisory_unknown_variant_cases"] = ck.extra.get("advisory_unknown_variant_cases", 0) + 1
-            if fst == "exc" and not isinstance(fres, ScrapliException):
-                ck.extra["advisory_unknown_variant_raw_exception"] = type(fres).__name__
-            return
-        dkw = {**ckw, **supplied}
-        dst, dres = build(dcls, dkw)
-        if fst != dst:
-            bad("factory and direct construction differ: one raised, the other did not",
-                factory=exc_sig(fres) if fst == "exc" else "ok", direct=exc_sig(dres) if dst == "exc" else "ok")
-            return
-        if fst == "exc":
-            if exc_sig(fres) != exc_sig(dres):
-                bad("factory and direct construction raise different exceptions", factory=exc_sig(fres), direct=exc_sig(dres))
-            if not is_async and transport is None and isinstance(fres, ScrapliException) is False and not isinstance(fres, TypeError):
-                pass
-            return
-        if type(fres) is not dcls:
-            bad("factory built a different class", factory=type(fres).__name__, direct=dcls.__name__)
-            return
-        fs, ds = conn_snap(fres), conn_snap(dres)
-        # tables copied from a community definition are distinct objects on both sides: compared structurally above
-        diff = [k for k in fs if fs[k] != ds[k]]
-        if diff:
-            bad("factory-built and directly built drivers differ in " + ",".join(diff),
-                factory={k: repr(fs[k])[:200] for k in diff}, direct={k: repr(ds[k])[:200] for k in diff})
-        # every supplied argument takes effect
-        tn = fres.transport_name
-        for k, v in supplied.items():
-            e = effect_of(k, v, fres, tn)
-            if e is None:
-                continue
-            got, want = e
-            if k == "host":
-                continue
-            ok = got is want if (callable(want) or isinstance(want, (io.BytesIO,)) or (isinstance(want, dict) and want and k == "privilege_levels")) \
-                else (type(got) is type(want) and got == want)
-            if not ok:
-                bad(f"supplied argument {k}={v!r} did not take effect", got=repr(got)[:200], want=repr(want)[:200])
-        # community defaults apply where the user said nothing
-        for k, v in ckw.items():
-            if k in supplied or k in ("privilege_levels",):
-                continue
-            e = effect_of(k, v, fres, tn) if v is not None else None
-            if e is not None:
-                got, want = e
-                if not (got is want or (type(got) is type(want) and got == want)):
-                    bad(f"community default {k}={v!r} did not take effect", got=repr(got)[:200], want=repr(want)[:200])
+    # ---- the oracle on the real factory
+    res = factory_oracle(case, plats)
+    ck.case(("fac", desc), nontrivial=res["nontrivial"], sample=desc, tags=res["tags"])
+    if res["advisory"]:
+        ck.extra["advisory_unknown_variant_cases"] = ck.extra.get("advisory_unknown_variant_cases", 0) + 1
+        if res["advisory"][1]:
+            ck.extra["advisory_unknown_variant_outcome"] = res["advisory"][1]
+    if res["viols"] and not ck.violations:
+        small = shrink_factory(case, res["viols"][0][0], plats)
+        r2 = factory_oracle(small, plats)
+        if r2["viols"]:
+            res, desc = r2, describe(small)
+    for what, more in res["viols"]:
+        ck.violation({"kind": "factory", **desc, **more}, what, matcher)
 
 
 def describe(case):
